@@ -194,7 +194,7 @@ def r3_nondeterminism(ctx):
                 if p:
                     tainted_attrs.add(p)
         for segvar, allowed in ALLOWED_POS.items():
-            vals = _seg_values(fn, segvar)
+            vals = _seg_values(fn, segvar, {'isa_seg': 'ISA', 'gs_seg': 'GS'}.get(segvar))
             for pos, e in sorted(vals.items()):
                 nd = any(_is_nd(x) for x in ast.walk(e)) or path_of(e) in tainted_attrs
                 if nd:
